@@ -321,6 +321,31 @@ func rC05ParserGates(w *World, r *Report) {
 	} else {
 		ru.Bad("ambiguity-edge", w.IPos(amb), strings.Join(problems, "; "))
 	}
+	// the ambiguity test comes first: nothing is done with the matcher's result (no effect, no stop, no return,
+	// no next token) before it has been tested for several candidates
+	if mcIn := ssa.Instruction(mc); mc != nil {
+		isEff := map[ssa.Instruction]bool{}
+		for _, e := range effs {
+			isEff[e.Instr] = true
+		}
+		okFirst, wit := m.ig.mustPass(m.ig.after(mcIn), func(in ssa.Instruction) bool { return in == ssa.Instruction(amb) }, func(in ssa.Instruction) bool {
+			if isEff[in] || in == ssa.Instruction(m.mainNext) {
+				return true
+			}
+			if _, isRet := in.(*ssa.Return); isRet {
+				return true
+			}
+			if c, isCall := in.(ssa.CallInstruction); isCall && calleeName(c) == nStoreRest {
+				return true
+			}
+			return false
+		})
+		if okFirst {
+			ru.OK("ambiguity-first", w.IPos(amb), "every use of the matcher's result comes after the test for several candidates")
+		} else {
+			ru.Bad("ambiguity-first", w.IPos(wit), "reached from the matcher call without passing the test for several candidates: an ambiguous prefix is handled silently on that path (e.g. stored as a remaining argument)")
+		}
+	}
 	// match block gates
 	for _, e := range effs {
 		if e.Kind != effSave && !(e.Kind == effOptStore) {
@@ -1147,7 +1172,7 @@ func isSubmatchResult(v ssa.Value, seen map[ssa.Value]bool) bool {
 // canonicalStmts prints statements with local identifiers renamed in order of first appearance.
 func canonicalStmts(fset *token.FileSet, info *types.Info, stmts []ast.Stmt) string {
 	names := map[string]string{} // local variable name -> positional name (objects sharing a name share the positional name)
-	var labels []string // labels declared in the statements, in order (renamed positionally)
+	var labels []string          // labels declared in the statements, in order (renamed positionally)
 	var buf bytes.Buffer
 	for _, s := range stmts {
 		ast.Inspect(s, func(n ast.Node) bool {
